@@ -244,3 +244,8 @@ func init() {
 	prop("C09", "C07-R6")
 	prop("C01", "C07-R6") // restart itself always succeeds
 }
+
+func init() {
+	prop("C19", "C19-R4")
+	prop("C12", "C19-R4") // no call blocks for ever
+}
